@@ -57,64 +57,245 @@ fn dbl(d: DoubleBit) -> f64 {
 
 impl ReadHandler for RecHandler {
     fn begin_fragment(&mut self, read_type: ReadType, header: ResponseHeader) -> MaybeAsync<()> {
-        self.push(HEv::Begin(format!("{:?}", read_type), header.control.seq.value(), header.function.is_unsolicited()));
+        self.push(HEv::Begin(
+            format!("{:?}", read_type),
+            header.control.seq.value(),
+            header.function.is_unsolicited(),
+        ));
         MaybeAsync::ready(())
     }
     fn end_fragment(&mut self, read_type: ReadType, header: ResponseHeader) -> MaybeAsync<()> {
-        self.push(HEv::End(format!("{:?}", read_type), header.control.seq.value()));
+        self.push(HEv::End(
+            format!("{:?}", read_type),
+            header.control.seq.value(),
+        ));
         MaybeAsync::ready(())
     }
-    fn handle_binary_input(&mut self, info: HeaderInfo, iter: &mut dyn Iterator<Item = (BinaryInput, u16)>) {
-        let items = iter.map(|(v, i)| Item { index: i, value: v.value as u8 as f64, bytes: vec![], flags: v.flags.value, time: t(v.time) }).collect();
-        self.push(HEv::Meas(0, info.variation.to_group_and_var(), info.is_event, info.has_flags, items));
+    fn handle_binary_input(
+        &mut self,
+        info: HeaderInfo,
+        iter: &mut dyn Iterator<Item = (BinaryInput, u16)>,
+    ) {
+        let items = iter
+            .map(|(v, i)| Item {
+                index: i,
+                value: v.value as u8 as f64,
+                bytes: vec![],
+                flags: v.flags.value,
+                time: t(v.time),
+            })
+            .collect();
+        self.push(HEv::Meas(
+            0,
+            info.variation.to_group_and_var(),
+            info.is_event,
+            info.has_flags,
+            items,
+        ));
     }
-    fn handle_double_bit_binary_input(&mut self, info: HeaderInfo, iter: &mut dyn Iterator<Item = (DoubleBitBinaryInput, u16)>) {
-        let items = iter.map(|(v, i)| Item { index: i, value: dbl(v.value), bytes: vec![], flags: v.flags.value, time: t(v.time) }).collect();
-        self.push(HEv::Meas(1, info.variation.to_group_and_var(), info.is_event, info.has_flags, items));
+    fn handle_double_bit_binary_input(
+        &mut self,
+        info: HeaderInfo,
+        iter: &mut dyn Iterator<Item = (DoubleBitBinaryInput, u16)>,
+    ) {
+        let items = iter
+            .map(|(v, i)| Item {
+                index: i,
+                value: dbl(v.value),
+                bytes: vec![],
+                flags: v.flags.value,
+                time: t(v.time),
+            })
+            .collect();
+        self.push(HEv::Meas(
+            1,
+            info.variation.to_group_and_var(),
+            info.is_event,
+            info.has_flags,
+            items,
+        ));
     }
-    fn handle_binary_output_status(&mut self, info: HeaderInfo, iter: &mut dyn Iterator<Item = (BinaryOutputStatus, u16)>) {
-        let items = iter.map(|(v, i)| Item { index: i, value: v.value as u8 as f64, bytes: vec![], flags: v.flags.value, time: t(v.time) }).collect();
-        self.push(HEv::Meas(2, info.variation.to_group_and_var(), info.is_event, info.has_flags, items));
+    fn handle_binary_output_status(
+        &mut self,
+        info: HeaderInfo,
+        iter: &mut dyn Iterator<Item = (BinaryOutputStatus, u16)>,
+    ) {
+        let items = iter
+            .map(|(v, i)| Item {
+                index: i,
+                value: v.value as u8 as f64,
+                bytes: vec![],
+                flags: v.flags.value,
+                time: t(v.time),
+            })
+            .collect();
+        self.push(HEv::Meas(
+            2,
+            info.variation.to_group_and_var(),
+            info.is_event,
+            info.has_flags,
+            items,
+        ));
     }
     fn handle_counter(&mut self, info: HeaderInfo, iter: &mut dyn Iterator<Item = (Counter, u16)>) {
-        let items = iter.map(|(v, i)| Item { index: i, value: v.value as f64, bytes: vec![], flags: v.flags.value, time: t(v.time) }).collect();
-        self.push(HEv::Meas(3, info.variation.to_group_and_var(), info.is_event, info.has_flags, items));
+        let items = iter
+            .map(|(v, i)| Item {
+                index: i,
+                value: v.value as f64,
+                bytes: vec![],
+                flags: v.flags.value,
+                time: t(v.time),
+            })
+            .collect();
+        self.push(HEv::Meas(
+            3,
+            info.variation.to_group_and_var(),
+            info.is_event,
+            info.has_flags,
+            items,
+        ));
     }
-    fn handle_frozen_counter(&mut self, info: HeaderInfo, iter: &mut dyn Iterator<Item = (FrozenCounter, u16)>) {
-        let items = iter.map(|(v, i)| Item { index: i, value: v.value as f64, bytes: vec![], flags: v.flags.value, time: t(v.time) }).collect();
-        self.push(HEv::Meas(4, info.variation.to_group_and_var(), info.is_event, info.has_flags, items));
+    fn handle_frozen_counter(
+        &mut self,
+        info: HeaderInfo,
+        iter: &mut dyn Iterator<Item = (FrozenCounter, u16)>,
+    ) {
+        let items = iter
+            .map(|(v, i)| Item {
+                index: i,
+                value: v.value as f64,
+                bytes: vec![],
+                flags: v.flags.value,
+                time: t(v.time),
+            })
+            .collect();
+        self.push(HEv::Meas(
+            4,
+            info.variation.to_group_and_var(),
+            info.is_event,
+            info.has_flags,
+            items,
+        ));
     }
-    fn handle_analog_input(&mut self, info: HeaderInfo, iter: &mut dyn Iterator<Item = (AnalogInput, u16)>) {
-        let items = iter.map(|(v, i)| Item { index: i, value: v.value, bytes: vec![], flags: v.flags.value, time: t(v.time) }).collect();
-        self.push(HEv::Meas(5, info.variation.to_group_and_var(), info.is_event, info.has_flags, items));
+    fn handle_analog_input(
+        &mut self,
+        info: HeaderInfo,
+        iter: &mut dyn Iterator<Item = (AnalogInput, u16)>,
+    ) {
+        let items = iter
+            .map(|(v, i)| Item {
+                index: i,
+                value: v.value,
+                bytes: vec![],
+                flags: v.flags.value,
+                time: t(v.time),
+            })
+            .collect();
+        self.push(HEv::Meas(
+            5,
+            info.variation.to_group_and_var(),
+            info.is_event,
+            info.has_flags,
+            items,
+        ));
     }
-    fn handle_frozen_analog_input(&mut self, info: HeaderInfo, iter: &mut dyn Iterator<Item = (FrozenAnalogInput, u16)>) {
-        let items = iter.map(|(v, i)| Item { index: i, value: v.value, bytes: vec![], flags: v.flags.value, time: t(v.time) }).collect();
-        self.push(HEv::Meas(8, info.variation.to_group_and_var(), info.is_event, info.has_flags, items));
+    fn handle_frozen_analog_input(
+        &mut self,
+        info: HeaderInfo,
+        iter: &mut dyn Iterator<Item = (FrozenAnalogInput, u16)>,
+    ) {
+        let items = iter
+            .map(|(v, i)| Item {
+                index: i,
+                value: v.value,
+                bytes: vec![],
+                flags: v.flags.value,
+                time: t(v.time),
+            })
+            .collect();
+        self.push(HEv::Meas(
+            8,
+            info.variation.to_group_and_var(),
+            info.is_event,
+            info.has_flags,
+            items,
+        ));
     }
-    fn handle_analog_input_dead_band(&mut self, info: HeaderInfo, iter: &mut dyn Iterator<Item = (AnalogInputDeadBand, u16)>) {
+    fn handle_analog_input_dead_band(
+        &mut self,
+        info: HeaderInfo,
+        iter: &mut dyn Iterator<Item = (AnalogInputDeadBand, u16)>,
+    ) {
         let n = iter.count();
         self.push(HEv::Other(format!("{:?}", info.variation), n));
     }
-    fn handle_analog_output_status(&mut self, info: HeaderInfo, iter: &mut dyn Iterator<Item = (AnalogOutputStatus, u16)>) {
-        let items = iter.map(|(v, i)| Item { index: i, value: v.value, bytes: vec![], flags: v.flags.value, time: t(v.time) }).collect();
-        self.push(HEv::Meas(6, info.variation.to_group_and_var(), info.is_event, info.has_flags, items));
+    fn handle_analog_output_status(
+        &mut self,
+        info: HeaderInfo,
+        iter: &mut dyn Iterator<Item = (AnalogOutputStatus, u16)>,
+    ) {
+        let items = iter
+            .map(|(v, i)| Item {
+                index: i,
+                value: v.value,
+                bytes: vec![],
+                flags: v.flags.value,
+                time: t(v.time),
+            })
+            .collect();
+        self.push(HEv::Meas(
+            6,
+            info.variation.to_group_and_var(),
+            info.is_event,
+            info.has_flags,
+            items,
+        ));
     }
-    fn handle_analog_output_command_event(&mut self, info: HeaderInfo, iter: &mut dyn Iterator<Item = (AnalogOutputCommandEvent, u16)>) {
+    fn handle_analog_output_command_event(
+        &mut self,
+        info: HeaderInfo,
+        iter: &mut dyn Iterator<Item = (AnalogOutputCommandEvent, u16)>,
+    ) {
         let n = iter.count();
         self.push(HEv::Other(format!("{:?}", info.variation), n));
     }
-    fn handle_binary_output_command_event(&mut self, info: HeaderInfo, iter: &mut dyn Iterator<Item = (BinaryOutputCommandEvent, u16)>) {
+    fn handle_binary_output_command_event(
+        &mut self,
+        info: HeaderInfo,
+        iter: &mut dyn Iterator<Item = (BinaryOutputCommandEvent, u16)>,
+    ) {
         let n = iter.count();
         self.push(HEv::Other(format!("{:?}", info.variation), n));
     }
-    fn handle_unsigned_integer(&mut self, info: HeaderInfo, iter: &mut dyn Iterator<Item = (UnsignedInteger, u16)>) {
+    fn handle_unsigned_integer(
+        &mut self,
+        info: HeaderInfo,
+        iter: &mut dyn Iterator<Item = (UnsignedInteger, u16)>,
+    ) {
         let n = iter.count();
         self.push(HEv::Other(format!("{:?}", info.variation), n));
     }
-    fn handle_octet_string<'a>(&mut self, info: HeaderInfo, iter: &'a mut dyn Iterator<Item = (&'a [u8], u16)>) {
-        let items = iter.map(|(v, i)| Item { index: i, value: 0.0, bytes: v.to_vec(), flags: 0, time: None }).collect();
-        self.push(HEv::Meas(7, info.variation.to_group_and_var(), info.is_event, info.has_flags, items));
+    fn handle_octet_string<'a>(
+        &mut self,
+        info: HeaderInfo,
+        iter: &'a mut dyn Iterator<Item = (&'a [u8], u16)>,
+    ) {
+        let items = iter
+            .map(|(v, i)| Item {
+                index: i,
+                value: 0.0,
+                bytes: v.to_vec(),
+                flags: 0,
+                time: None,
+            })
+            .collect();
+        self.push(HEv::Meas(
+            7,
+            info.variation.to_group_and_var(),
+            info.is_event,
+            info.has_flags,
+            items,
+        ));
     }
     fn handle_device_attribute(&mut self, info: HeaderInfo, _attr: AnyAttribute) {
         self.push(HEv::Other(format!("{:?}", info.variation), 1));
